@@ -167,7 +167,7 @@ theorem exists_cand_of_inner {T : Table} {S : Matrix} {o : Int} {r q : List Nat}
     (hin : T.at (i + 1) (j + 1) =
       nwCell S o (r.getD i 0) (T.at i j) (T.at i (j + 1)) (T.at (i + 1) j) (q.getD j 0))
     (k : Kind) (v : Int) (h : (T.at (i + 1) (j + 1)).get k = some v) :
-    ∃ cd ∈ cands false S o (r.getD i 0) (q.getD j 0),
+    ∃ cd ∈ cands false S o (r.getD i 0) (q.getD j 0), cd.1 = k ∧
       vadd ((predOf T (i + 1) (j + 1) cd.1).get cd.2.1) cd.2.2 = some v := by
   rw [hin] at h
   cases k with
@@ -175,35 +175,36 @@ theorem exists_cand_of_inner {T : Table} {S : Matrix} {o : Int} {r q : List Nat}
     simp only [Cell.get, nwCell] at h
     obtain ⟨hsel, _⟩ := max3_spec (T.at i j).d (T.at i j).u (T.at i j).l
     rcases hsel with e | e | e <;> rw [e] at h
-    · exact ⟨(.m, .m, S (r.getD i 0) (q.getD j 0)), by simp [cands], by simpa [predOf, Cell.get] using h⟩
-    · exact ⟨(.m, .u, S (r.getD i 0) (q.getD j 0)), by simp [cands], by simpa [predOf, Cell.get] using h⟩
-    · exact ⟨(.m, .l, S (r.getD i 0) (q.getD j 0)), by simp [cands], by simpa [predOf, Cell.get] using h⟩
+    · exact ⟨(.m, .m, S (r.getD i 0) (q.getD j 0)), by simp [cands], rfl, by simpa [predOf, Cell.get] using h⟩
+    · exact ⟨(.m, .u, S (r.getD i 0) (q.getD j 0)), by simp [cands], rfl, by simpa [predOf, Cell.get] using h⟩
+    · exact ⟨(.m, .l, S (r.getD i 0) (q.getD j 0)), by simp [cands], rfl, by simpa [predOf, Cell.get] using h⟩
   | u =>
     simp only [Cell.get, nwCell] at h
     obtain ⟨hsel, _⟩ := max2_spec (vadd (T.at i (j + 1)).d (o + S (r.getD i 0) 0)) (vadd (T.at i (j + 1)).u (S (r.getD i 0) 0))
     rcases hsel with e | e <;> rw [e] at h
-    · exact ⟨(.u, .m, o + S (r.getD i 0) 0), by simp [cands], by simpa [predOf, Cell.get] using h⟩
-    · exact ⟨(.u, .u, S (r.getD i 0) 0), by simp [cands], by simpa [predOf, Cell.get] using h⟩
+    · exact ⟨(.u, .m, o + S (r.getD i 0) 0), by simp [cands], rfl, by simpa [predOf, Cell.get] using h⟩
+    · exact ⟨(.u, .u, S (r.getD i 0) 0), by simp [cands], rfl, by simpa [predOf, Cell.get] using h⟩
   | l =>
     simp only [Cell.get, nwCell] at h
     obtain ⟨hsel, _⟩ := max2_spec (vadd (T.at (i + 1) j).d (o + S 0 (q.getD j 0))) (vadd (T.at (i + 1) j).l (S 0 (q.getD j 0)))
     rcases hsel with e | e <;> rw [e] at h
-    · exact ⟨(.l, .m, o + S 0 (q.getD j 0)), by simp [cands], by simpa [predOf, Cell.get] using h⟩
-    · exact ⟨(.l, .l, S 0 (q.getD j 0)), by simp [cands], by simpa [predOf, Cell.get] using h⟩
+    · exact ⟨(.l, .m, o + S 0 (q.getD j 0)), by simp [cands], rfl, by simpa [predOf, Cell.get] using h⟩
+    · exact ⟨(.l, .l, S 0 (q.getD j 0)), by simp [cands], rfl, by simpa [predOf, Cell.get] using h⟩
 
 theorem exists_cand {T : Table} {S : Matrix} {o : Int} {r q : List Nat} (F : NWFacts T S o r q)
     (i j : Nat) (hi : i < r.length) (hj : j < q.length) (k : Kind) (v : Int)
     (h : (T.at (i + 1) (j + 1)).get k = some v) :
-    ∃ cd ∈ cands false S o (r.getD i 0) (q.getD j 0),
+    ∃ cd ∈ cands false S o (r.getD i 0) (q.getD j 0), cd.1 = k ∧
       vadd ((predOf T (i + 1) (j + 1) cd.1).get cd.2.1) cd.2.2 = some v :=
   exists_cand_of_inner i j (F.inner i j hi hj) k v h
 
-theorem loop_good {T : Table} {S : Matrix} {o : Int} {r q : List Nat} (F : NWFacts T S o r q) (B : Int) :
+theorem loop_good (aware : Bool) {T : Table} {S : Matrix} {o : Int} {r q : List Nat} (F : NWFacts T S o r q)
+    (B : Int) :
     ∀ (fuel : Nat) (st : TB), Good T r.length q.length B st → st.i + st.j ≤ fuel →
-      ∃ st', tbLoop false T S o r q r.length q.length fuel st = .ok st' ∧
+      ∃ st', tbLoop aware false T S o r q r.length q.length fuel st = .ok st' ∧
         Good T r.length q.length B st' ∧ (st'.i = 0 ∨ st'.j = 0) := by
   intro fuel st hg hf
-  obtain ⟨st', h1, h2, h3⟩ := loop_good_gen false r.length q.length
+  obtain ⟨st', h1, h2, h3⟩ := loop_good_gen aware false r.length q.length
     (fun i j hi hj k v hv _ => exists_cand F i j hi hj k v hv) B fuel st hg hf
   refine ⟨st', h1, h2, ?_⟩
   rcases h3 with h | h | h
@@ -300,7 +301,7 @@ theorem nwAlign_total (S : Matrix) (o : Int) (r q : List Nat) (hr : r ≠ []) (h
     simp only []
     rw [cellBest_layer, hbest, hx]
   obtain ⟨st', hloop, ⟨_, _, v, hv, hsum⟩, hend⟩ :=
-    loop_good F x (r.length + q.length) _ hinit (Nat.le_refl _)
+    loop_good true F x (r.length + q.length) _ hinit (Nat.le_refl _)
   unfold nwAlign nwAlignT
   simp only [hloop]
   by_cases hij : st'.i ≠ st'.j
